@@ -18,6 +18,8 @@ from black_it.schedulers.rl.envs.mab import MABCalibrationEnv
 from harness.calib import FreeLoss, ScriptedSampler, make_sampler_class, model_uf, world
 from harness.common import Case, f, inject
 from symx.core import Sym, lift
+from symx.core import reraise_if_harness  # noqa: E402
+from harness.rlintro import qlen, rl_queues  # noqa: E402
 
 LEVEL = "model_checking"
 FUNCTIONS = [
@@ -210,7 +212,7 @@ def case_rl(layout, nbatches):
         prove(type(first) is HaltonSampler and any(first is s for s in sched.samplers), "rl_bootstrap_first", f"first batch by {type(first).__name__}")
         sched.update(0, np.array([[0.5]]), [losses[0]], None)
         for t in range(1, nbatches):
-            sched._in_queue.put(actions[t])
+            rl_queues(sched)[0].put(actions[t])
             got = sched.get_next_sampler()
             yield t, got
             sched.update(t, np.array([[0.5]]), [losses[t]], None)
@@ -229,7 +231,7 @@ def case_rl(layout, nbatches):
                 idx = [k for k, s in enumerate(sched.samplers) if s is got]
                 ctx.prove(z3.BoolVal(len(idx) == 1), "rl_follows_agent", "returned object is one of the scheduler's samplers")
                 ctx.prove(actions[t].t == idx[0], "rl_follows_agent", f"batch {t}: sampler index {idx[0]}")
-            ctx.prove(z3.BoolVal(sched._in_queue.qsize() == 0), "rl_follows_agent", "every action consumed")
+            ctx.prove(z3.BoolVal(qlen(rl_queues(sched)[0]) == 0), "rl_follows_agent", "every action consumed")
 
     def replay(cex):
         samplers, agent, env, n_eff = build(None)
@@ -247,6 +249,7 @@ def case_rl(layout, nbatches):
                 if got is not sched.samplers[actions[t]]:
                     bad.append(f"batch {t}: agent chose {actions[t]} but scheduler returned sampler {[k for k, s in enumerate(sched.samplers) if s is got]}")
         except Exception as e:  # noqa: BLE001
+            reraise_if_harness(e)
             bad.append(f"raised {type(e).__name__}: {e}")
         return bool(bad), f"layout={layout} actions={actions[1:]} losses={losses}: " + ("; ".join(bad) or "as prescribed")
 
@@ -273,6 +276,7 @@ def case_ctor():
         except ValueError:
             return "ValueError", None
         except Exception as e:  # noqa: BLE001
+            reraise_if_harness(e)
             return type(e).__name__, None
 
     def body(ctx):
